@@ -15,6 +15,7 @@ K = {
     "C01-K1": k("C01-K1", "c01_k1_slot_roundtrip", stubs=ST),
     "C01-K2": k("C01-K2", "c01_k2_god_byte_only", stubs=ST),
     "C01-K3": k("C01-K3", "c01_k3_select_primary", covers=2, stubs=SF),
+    "C11-K4": k("C11-K4", "c11_k4_finalize_flags", "bounded", stubs=ST, covers=2, bound="page size 4096, regions of 1 header page + 1024 data pages; every stored region count, every u64 file length"),
     "C01-K4": k("C01-K4", "c01_k4_finalize_uses_file_len", stubs=ST, covers=2,
                 bound="page size 4096 (every region geometry, every u64 file length): loop-free, complete for that page size"),
     "C01-K4b": k("C01-K4b", "c01_k4b_finalize_rejects_truncation", stubs=ST, covers=1, tier="thorough", bound="page size 4096"),
@@ -99,6 +100,9 @@ reg = {
         "tableverify": {"overlay": "units/tableverify.ovl", "canaries": ["canary_tableverify"],
                         "helpers": ["clone", "get_page", "new", "verify_checksum", "fixed_width", "fixed_width_with", "next", "parse_subtree_roots", "value", "range", "hint"]},
         # the release of a deleted table's pages (fragment of TableTreeMut::delete_table)
+        "reload": {"overlay": "units/reload.ovl", "canaries": ["canary_reload"],
+                   "helpers": ["lock", "from", "len", "layout", "to_bytes", "from_bytes", "finalize", "copy_from_slice", "mem_mut", "discard_write_buffer", "invalidate_cache_all",
+                               "sync_file", "flush", "read_direct", "raw_file_len", "write", "clear"]},
         "splice": {"overlay": "units/splice.ovl", "canaries": ["canary_splice"],
                    "helpers": ["drop", "into_iter", "rev", "next", "get_page_number", "new", "key", "replace_branch_child", "rebuild_branch_level", "build_branch_nodes",
                                "conditional_free", "compare", "fixed_width"]},
@@ -354,9 +358,10 @@ P["C11"] = {
                                               "InMemoryState::get_region_mut", "Mutex::lock"]},
               {"unit": "txcommit", "functions": ["WriteTransaction::abort_inner"]},
               {"unit": "beginwrite", "functions": ["begin_write_with_allocation_policy"]},
-              {"unit": "openstate", "functions": ["Database::get_allocator_state_table"]}],
-    "kani": [K["C11-R3"]],
-    "explanation": "Kernel: (O) the REAL Database::get_allocator_state_table trusts a saved allocator state only when the primary commit was written with two-phase commit, the system tree of the primary holds the table, and the table is current (is_valid_allocator_state) - in every other case the open repairs; (R) rebuild = reset + one mark per reachable page. The REAL TransactionalMemory::reset_allocator_state leaves an allocator state that matches the header's layout with EVERY page free (Allocators::new, BuddyAllocator::new: greedy decomposition, lemma_greedy_all_free); the REAL TransactionalMemory::mark_page_allocated accepts a page number only if it names a block inside an existing region of the layout that was entirely free, then exactly its pages stop being free, every other region is untouched and the state stays consistent with the header; a refused page number (order > 20, region or block out of range, overlap with an allocated page) changes no allocator; the REAL WriteTransaction::abort_inner keeps the repair latch set when the rollback fails part way (its pages stay allocated, so the allocator state is never persisted as clean) and restores it after a complete rollback. record_alloc marks exactly the named block (true iff the block lay inside a free block, which it then no longer does, every other page keeps its state) or refuses with the allocator unchanged, I1 and I2 preserved; (R4) Allocators::resize_to - the reconciliation of a loaded allocator state with the layout of the file being opened - gives every region the size the layout says, keeps wf and TRK, marks dropped regions full and leaves unchanged regions untouched (BuddyAllocator::resize verified; only highest_free_order assumed); the allocator-state key codec orders Region(i) by i and before the tracker and the transaction id, which the snapshot loader's range scans rely on.",
+              {"unit": "openstate", "functions": ["Database::get_allocator_state_table"]},
+              {"unit": "reload", "functions": ["TransactionalMemory::clear_cache_and_reload", "Mutex::lock"]}],
+    "kani": [K["C11-R3"], K["C11-K4"], alias("C01-K4b", "C11-K4b")],
+    "explanation": "Kernel: (H) the REAL TransactionalMemory::clear_cache_and_reload (the reload check_integrity() starts with): it reports clean exactly when the primary slot was kept and the stored layout matched the file or merely lagged behind a file that still has the length of the layout this process was running with - so a healthy database reloads clean whatever region counts its header still stores (an aborted transaction grows the file without writing them: the genuine defect repaired by the fix commit, see known_findings.json), while a file whose length changed under the process, or a replaced primary slot, is never reported clean; the header is rewritten and flushed exactly when something was reconciled, both caches are dropped before anything fallible, and the in-memory header, allocator state and unpersisted set are replaced; the REAL finalize reports 'primary kept' and 'stored layout matched' apart, the latter exactly when the stored region counts are the ones rebuilt from the file length (Kani C11-K4, one region geometry - bounded; K4b without recovery flag); (O) the REAL Database::get_allocator_state_table trusts a saved allocator state only when the primary commit was written with two-phase commit, the system tree of the primary holds the table, and the table is current (is_valid_allocator_state) - in every other case the open repairs; (R) rebuild = reset + one mark per reachable page. The REAL TransactionalMemory::reset_allocator_state leaves an allocator state that matches the header's layout with EVERY page free (Allocators::new, BuddyAllocator::new: greedy decomposition, lemma_greedy_all_free); the REAL TransactionalMemory::mark_page_allocated accepts a page number only if it names a block inside an existing region of the layout that was entirely free, then exactly its pages stop being free, every other region is untouched and the state stays consistent with the header; a refused page number (order > 20, region or block out of range, overlap with an allocated page) changes no allocator; the REAL WriteTransaction::abort_inner keeps the repair latch set when the rollback fails part way (its pages stay allocated, so the allocator state is never persisted as clean) and restores it after a complete rollback. record_alloc marks exactly the named block (true iff the block lay inside a free block, which it then no longer does, every other page keeps its state) or refuses with the allocator unchanged, I1 and I2 preserved; (R4) Allocators::resize_to - the reconciliation of a loaded allocator state with the layout of the file being opened - gives every region the size the layout says, keeps wf and TRK, marks dropped regions full and leaves unchanged regions untouched (BuddyAllocator::resize verified; only highest_free_order assumed); the allocator-state key codec orders Region(i) by i and before the tracker and the transaction id, which the snapshot loader's range scans rely on.",
     "not_decided": "which pages ARE reachable; is_valid_allocator_state's staleness comparison (needs a B-tree); histories and crash points; the tracker's persistent-savepoint pins rebuilt at open (register_persistent_savepoint: one pin per savepoint, also when several savepoints share a transaction) only BOUNDED (native C11-X-pins3)",
 }
 P["C15"] = {
